@@ -146,8 +146,17 @@ impl Cache {
         self.live.lock().unwrap().remove(pid);
     }
 
+    /// forget a process altogether, as if no instance of it were left in memory (the next lookup
+    /// loads it from the store)
     #[cfg(feature = "verif")]
     pub fn verif_uncache(&self, pid: &str) {
+        self.procs.remove(pid);
+        self.live.lock().unwrap().remove(pid);
+    }
+
+    /// what the LRU does when it is full: the entry goes, an instance that is still in use stays alive
+    #[cfg(feature = "verif")]
+    pub fn verif_lru_drop(&self, pid: &str) {
         self.procs.remove(pid);
     }
 
